@@ -37,8 +37,32 @@ class LateBox:
     return 1
 
 
+import dataclasses as _dc
+
+
+@_dc.dataclass
+class FactoryDC:
+  width: int = 4
+  hooks: list = _dc.field(default_factory=list)
+  opts: dict = _dc.field(default_factory=dict)
+
+
 def scenario_pairs(name):
   """Hand-made pairs (a, b, expect_equal)."""
+  if name == 'dataclass_factory':
+    # a dataclass field with a default_factory has no default VALUE: set on one side only it
+    # makes the configurations unequal - and == must say so rather than raise
+    f = graphs.node_fn(1, 0)
+    yield fdl.Config(FactoryDC, width=8), fdl.Config(FactoryDC, width=8, hooks=[]), False
+    yield fdl.Config(FactoryDC, hooks=[1]), fdl.Config(FactoryDC), False
+    yield fdl.Config(f, p=[fdl.Config(FactoryDC, opts={})]), fdl.Config(f, p=[fdl.Config(FactoryDC)]), False
+    c = fdl.Config(FactoryDC, hooks=[2], width=1)
+    d = fdl.Config(FactoryDC, hooks=[2], width=1)
+    del d.hooks
+    yield c, d, False
+    yield fdl.Config(FactoryDC, width=4), fdl.Config(FactoryDC), True
+    yield fdl.Config(FactoryDC, hooks=[3]), fdl.Config(FactoryDC, hooks=[3]), True
+    return
   if name == 'shared_defaults':
     a = fdl.Config(shared_defaults)
     yield a, fdl.Config(shared_defaults, u=Tok(0), w=Tok(0)), False     # shared default vs two objects
@@ -63,6 +87,7 @@ def scenario_pairs(name):
 def cases(tier, r):
   yield 'scenario', {'scenario': 'shared_defaults', 'seed': 0}
   yield 'scenario', {'scenario': 'late_registration', 'seed': 0}
+  yield 'scenario', {'scenario': 'dataclass_factory', 'seed': 0}
   for _ in range(900 if tier == 'quick' else 15000):
     yield 'pair', {'seed': r.getrandbits(48), 'size': r.choice([3, 5, 8]),
                    'rewrites': [r.choice(REWRITES) for _ in range(2)], 'mixed': r.random() < 0.3}
